@@ -443,7 +443,7 @@ fn read_fragmented(ctx: &mut Ctx) {
         for j in 0..per {
             k += 1;
             let key = key_of(&mut rng, k + 2); let pre = pre_of(&mut rng, k);
-            let size = if s.m == 2 && s.kind == 0 { *rng.pick(&[0u32, 9, 0x7FFF, 0x8000, 0x012345, 0x7FFFFF]) } else { rng.below(0x10000) as u32 };
+            let size = if j % 2 == 0 { edge_size(&mut rng, s.m == 2 && s.kind == 0) } else if s.m == 2 && s.kind == 0 { *rng.pick(&[0u32, 9, 0x7FFF, 0x8000, 0x012345, 0x7FFFFF]) } else { rng.below(0x10000) as u32 };
             let (size, opcode) = norm(s, size, rng.next() as u32);
             let (pre_ct, wire) = wire_for(s, key, &pre, size, opcode);
             let surplus = if j % 3 == 0 { 0 } else { rng.range(0, 9) as usize };
@@ -550,6 +550,8 @@ pub fn run(ctx: &mut Ctx) {
     read_failures(ctx);
     read_fragmented(ctx);
     write_cases(ctx);
+    // one direction of typed traffic through a receive buffer, all three modules (see typed_traffic below)
+    { let n = if ctx.quick() { 150 } else { 2000 }; for m in 0..3 { typed_traffic(ctx, m, n); } }
     ctx.sample("op=4 sel=[2,0,0] (wrath ClientDecrypterHalf) long header, reader delivers 4 bytes in fragments then fails with ConnectionReset; afterwards decrypt_large_server_header(fifth byte)".to_string());
 }
 
